@@ -293,8 +293,11 @@ def arange_block(start, step, offset, size, dtype, like=None):
     first, second = pair.astype(comp)
     idx = arange_safe(offset, offset + size, 1, like=like)
     res = first + idx.astype(comp) * (second - first)
+    # NumPy stores ``start`` and ``start + step`` themselves
+    if offset == 0 and size > 0:
+        res[0] = first
     if offset <= 1 < offset + size:
-        res[1 - offset] = second  # NumPy stores ``start + step`` itself
+        res[1 - offset] = second
     return res.astype(dtype, copy=False)
 
 
